@@ -115,6 +115,38 @@ fn cmd_de(a: &[Sx]) -> Result<String, String> {
 	})
 }
 
+/// hist SCHEMA SLOW (job SVAL BUDGET|none)... : consecutive to_datum calls sharing one SerializerConfig;
+/// each job has its own sink, which fails after BUDGET bytes
+fn cmd_hist(a: &[Sx]) -> Result<String, String> {
+	let schema = get_schema(&a[0])?;
+	let mut cfg = serde_avro_fast::ser::SerializerConfig::new(&schema);
+	if a[1].int::<u8>()? != 0 {
+		cfg.allow_slow_sequence_to_bytes();
+	}
+	let mut out = String::from("(ok");
+	for j in &a[2..] {
+		let (h, ja) = j.head()?;
+		if h != "job" {
+			return Err("expected (job SVAL BUDGET)".into());
+		}
+		let v = sval::SVal::from_sx(&ja[0])?;
+		let mut sink = io::ScheduledWriter::new(vec![], false);
+		if ja[1].atom()? != "none" {
+			sink.budget = Some(ja[1].int::<usize>()?);
+		}
+		let r = std::panic::catch_unwind(std::panic::AssertUnwindSafe(|| {
+			serde_avro_fast::to_datum(&v, &mut sink, &mut cfg).map(|_| ())
+		}));
+		match r {
+			Ok(Ok(())) => out.push_str(&format!(" (ok {})", hex(&sink.out))),
+			Ok(Err(e)) => out.push_str(&format!(" (err {})", esc(&e.to_string()))),
+			Err(_) => out.push_str(" (panic)"),
+		}
+	}
+	out.push(')');
+	Ok(out)
+}
+
 fn cmd_fp(a: &[Sx]) -> Result<String, String> {
 	// fp SCHEMA_NODES : canonical form text (hook H1) and fingerprint of a node graph
 	let s = schema::schema_from_sx(&a[0])?;
@@ -178,6 +210,7 @@ fn run_case(line: &str) -> String {
 		"fp" => cmd_fp(args),
 		"parse" => cmd_parse(args),
 		"freeze" => cmd_freeze(args),
+		"hist" => cmd_hist(args),
 		"cw" => container::cmd_cw(args),
 		"cr" => container::cmd_cr(args),
 		"apache_read" => apache::cmd_apache_read(args),
